@@ -20,6 +20,13 @@
 #include "sched/bufproxy.h"
 #include "sched/sched_driver.h"
 
+// the simple processors' spin lock and shutdown latch are private: name them for the trace
+#define private public
+#include "opentelemetry/common/spin_lock_mutex.h"
+#include "opentelemetry/sdk/logs/simple_log_record_processor.h"
+#include "opentelemetry/sdk/trace/simple_processor.h"
+#undef private
+
 #include "opentelemetry/sdk/logs/batch_log_record_processor.h"
 #include "opentelemetry/sdk/logs/batch_log_record_processor_options.h"
 #include "opentelemetry/sdk/logs/exporter.h"
@@ -270,6 +277,77 @@ void run_batch(const std::vector<std::vector<Tok>> &secs, bool is_span, Out &o)
   o.add(S.log_line());
 }
 
+
+// ------------------------------------------------------------------------------------------------ SIMPLE
+// case  SIMPLE <span|log> <latency> <fail_mask> | t op.. | t op.. | s <tid> <flag> ...
+//   SimpleSpanProcessor / SimpleLogRecordProcessor called from several threads (tids 0..n-1, one per "t" section);
+//   ops: e = OnEnd/OnEmit of one new record (id = (tid+1)*1000 + k), f = ForceFlush, h = Shutdown.
+//   The processor is destroyed by the controller after all threads have finished.
+//   events: call onend id / ret onend id, the spin lock's operations on "flag" (xchg/ld/st, yield, sleep),
+//   expbegin id / expend r, call flush / expflush r / ret flush r, call shutdown / tas latch old | xchg is_shutdown 1 old /
+//   expshutdown r / ret shutdown r.   summary: X <ids in exporter order> S <exporter Shutdown calls>
+template <class Proc, class Exp, class ExpBase, class Namer, class Emit>
+void run_simple(const std::vector<std::vector<Tok>> &secs, bool is_span, Out &o, Namer namer, Emit emit)
+{
+  const auto &h = secs[0];
+  Sched &S      = Sched::I();
+  S.reset();
+  Shared sh;
+  sh.latency   = (int)h[2].as_ll();
+  sh.fail_mask = (unsigned long)h[3].as_ull();
+  std::vector<std::vector<Tok>> scripts;
+  for (size_t i = 1; i < secs.size(); i++)
+  {
+    if (secs[i].empty()) continue;
+    if (secs[i][0].is_tag("t"))
+      scripts.emplace_back(secs[i].begin() + 1, secs[i].end());
+    else if (secs[i][0].is_tag("s"))
+      S.set_schedule(parse_schedule(std::vector<Tok>(secs[i].begin() + 1, secs[i].end())));
+  }
+  Proc *proc = new Proc(std::unique_ptr<ExpBase>(new Exp(sh)));
+  namer(proc);
+  for (size_t t = 0; t < scripts.size(); t++)
+  {
+    S.spawn([&, t] {
+      int me = Sched::self(), k = 0;
+      const auto &sc = scripts[t];
+      for (size_t i = 0; i < sc.size(); i++)
+      {
+        if (sc[i].is_tag("e"))
+        {
+          long long id = (long long)(me + 1) * 1000 + (++k);
+          S.log("call onend " + std::to_string(id));
+          emit(proc, id);
+          S.log("ret onend " + std::to_string(id));
+        }
+        else if (sc[i].is_tag("f"))
+        {
+          S.log("call flush");
+          bool r = proc->ForceFlush();
+          S.log(std::string("ret flush ") + (r ? "1" : "0"));
+        }
+        else if (sc[i].is_tag("h"))
+        {
+          S.log("call shutdown");
+          bool r = proc->Shutdown();
+          S.log(std::string("ret shutdown ") + (r ? "1" : "0"));
+        }
+      }
+    });
+  }
+  S.set_step_limit(50000);
+  S.run_all();
+  S.log("call destroy");
+  delete proc;
+  S.log("ret destroy");
+  o.tag("X");
+  for (auto id : sh.exported) o.num(id);
+  o.tag("S").num(sh.shutdown_calls);
+  o.tag("||");
+  o.add(S.log_line());
+  (void)is_span;
+}
+
 // ------------------------------------------------------------------------------------------------ COMPOSE
 // case  COMPOSE <trace|logs|metrics> | c <flushmask> <shutmask> | c .. | o <f|h> ..
 //   one "c" section per child (a SpanProcessor / LogRecordProcessor / MetricReader whose k-th ForceFlush resp. Shutdown
@@ -412,6 +490,26 @@ int main(int argc, char **argv)
   opentelemetry::sdk::common::internal_log::GlobalLogHandler::SetLogLevel(opentelemetry::sdk::common::internal_log::LogLevel::None);
   return run_cases_forked(argc, argv, [](const std::vector<Tok> &t, Out &o) {
     auto secs = split_toks(t, "|");
+    if (t.size() >= 4 && t[0].is_tag("SIMPLE") && secs[0].size() >= 4)
+    {
+      if (t[1].is_tag("span"))
+        run_simple<sdktrace::SimpleSpanProcessor, SpanExp, sdktrace::SpanExporter>(
+            secs, true, o,
+            [](sdktrace::SimpleSpanProcessor *p) {
+              Sched::I().name(&p->lock_.flag_, "flag");
+              Sched::I().name(&p->shutdown_latch_, "latch");
+            },
+            [](sdktrace::SimpleSpanProcessor *p, long long id) { p->OnEnd(std::unique_ptr<sdktrace::Recordable>(new_span(id))); });
+      else
+        run_simple<sdklogs::SimpleLogRecordProcessor, LogExp, sdklogs::LogRecordExporter>(
+            secs, false, o,
+            [](sdklogs::SimpleLogRecordProcessor *p) {
+              Sched::I().name(&p->lock_.flag_, "flag");
+              Sched::I().name(&p->is_shutdown_, "is_shutdown");
+            },
+            [](sdklogs::SimpleLogRecordProcessor *p, long long id) { p->OnEmit(std::unique_ptr<sdklogs::Recordable>(new_log(id))); });
+      return;
+    }
     if (t.size() >= 2 && t[0].is_tag("COMPOSE") && secs[0].size() >= 2)
     {
       run_compose(secs, o);
